@@ -48,6 +48,9 @@ CHECKS["C13"] = ("exhaustive enumeration of response-operation sequences and mid
 CHECKS["C14"] = ("round-trip and differential testing against reference codecs (Go encoding/json, base64, hex, net/url, crypto, protowire.Consume*, an independent PHP-serialize reader/writer) over rapid-generated value trees and grammar-aware mutated byte strings",
          "Value trees and byte strings through every listed encoder/decoder: encoder output must be read back by the reference implementation as the same value and the matching decoder must invert it; json_decode / unserialize / ParseRawFields must accept exactly what their reference parser accepts, produce the same tree and account for every byte; every decoder call must return inside the sandbox watchdog without a Go panic; single bytes and structural byte pairs enumerated.",
          "Depth-limit borderlines of the protobuf parser are asserted only where both plausible counting conventions agree; empty keyed values may encode as [] or {}.")
+CHECKS["C15"] = ("exhaustive (method x receiver x argument-tuple) enumeration against an independent Go implementation of the documented (JavaScript Array/String) semantics; rapid longer receivers",
+         "Every array and string method with each optional argument omitted or given, boundary indexes {-len-1 .. len+1}, 0..3 variadic items, callbacks using element / index / array; the return value and the receiver afterwards are both observed and compared with the model (mutators change the receiver exactly as specified, others leave it untouched).",
+         "Model follows docs/array_methods.md and docs/strings.md, JavaScript semantics where the docs defer to Node.js; byte-vs-code-point questions on non-ASCII strings are not asserted.")
 NOT_YET = {
 }
 
